@@ -2,6 +2,7 @@ CONSTANTS
   Mode = "exhaustive"
   ExLenRd = 3
   ExLenWr = 4
+  ExLenRf = 3
   ExSizes = {1, 4096, 4097}
   ExEnvSel = "quick"
   SimLen = 0
